@@ -54,13 +54,14 @@ def rule_config_before_call(ctx):
                 base, names = field_chain(src)
                 tgt = fn.expr_of_place({"l": s["lhs"]["l"], "p": s["lhs"]["p"][:-1]})
                 if names == [fld] and base[0] == "arg" and base[1] == 1 and any(x[0] == "field" and x[2] == "config" for x in walk(tgt)):
-                    stores[fld] = (bi, si)
+                    stores.setdefault(fld, []).append((bi, si))
                 else:
                     ctx.violation("%s|config.%s|source" % (name, fld), site(fn, bi, si), "matcher.config.%s is set from %s instead of the atom's own %s" % (fld, show(src), fld))
         calls = [(bi, t) for bi, t in fn.calls(lambda t: callee(t).startswith("Matcher::") or (callee(t) in reach and reach[callee(t)] and callee(t) not in entry))]
         for bi, t in calls:
             total += 1
-            missing = [f for f in ("ignore_case", "normalize") if f not in stores or not (fn.dominates(stores[f][0], bi))]
+            # every path to the call passes a store of each field (one store dominating it, or one per branch)
+            missing = [f for f in ("ignore_case", "normalize") if f not in stores or not fn.must_pass(bi, via_nodes=[b_ for b_, _ in stores[f] if b_ != bi])]
             what = callee(t) if callee(t).startswith("Matcher::") else "%s (which runs %s)" % (callee(t), sorted(reach[callee(t)])[0])
             if missing:
                 ctx.violation("%s|config-before|%s" % (name, callee(t).rsplit("::", 1)[1]), site(fn, bi),
@@ -90,6 +91,12 @@ def dispatch_tables(fn):
             continue
         e = fn.expr_of_operand(t["discr"])
         if not (e[0] == "discr" and "AtomKind" in str(e[2])):
+            continue
+        # only `match self.kind` (a dispatch on the atom's stored kind), not e.g. the kind computations of the parser
+        src = peel(e[1])
+        while src[0] in ("ref", "deref"):
+            src = peel(src[1])
+        if not (src[0] == "field" and src[2] == "kind"):
             continue
         table = {}
         for v, bb in t["arms"]:
@@ -470,7 +477,28 @@ def rule_sum_and_propagate(ctx):
         else:
             ctx.violation("pattern::MultiPattern::score|zip|1", site(mp, z[0][0]), "columns are paired as zip(%s, %s)" % (show(a)[:50], show(b)[:50]))
     else:
-        ctx.violation("pattern::MultiPattern::score|zip|0", site(mp, 0), "MultiPattern::score does not zip column patterns with column haystacks")
+        # explicit indexing: pattern = self.cols[i].0, haystack = columns[i] with the SAME index
+        okidx = False
+        for bi, t in mp.calls(lambda t: callee(t) == "nucleo_matcher::pattern::Pattern::score"):
+            recv = mp.expr_of_operand(t["args"][0])
+            hay = mp.expr_of_operand(t["args"][1])
+            idx_r = [x for x in walk(recv) if x[0] == "index" or (x[0] == "call" and str(x[1]).endswith("::index"))]
+            idx_h = [x for x in walk(hay) if x[0] == "index" or (x[0] == "call" and str(x[1]).endswith("::index"))]
+
+            def index_of(x):
+                return strip_casts(x[2] if x[0] == "index" else x[2][1])
+
+            def base_has(x, pred):
+                return any(pred(y) for y in walk(x[1] if x[0] == "index" else x[2][0]))
+            if idx_r and idx_h:
+                same = index_of(idx_r[0]) == index_of(idx_h[0])
+                cols_ok = base_has(idx_r[0], lambda y: y[0] == "field" and y[2] == "cols")
+                hay_ok = base_has(idx_h[0], lambda y: y[0] == "arg" and y[1] == 2)
+                okidx = same and cols_ok and hay_ok
+        if okidx:
+            ctx.ok(site(mp, 0), "column i's pattern is matched against column i's haystack (same index into self.cols and the item's columns)")
+        else:
+            ctx.violation("pattern::MultiPattern::score|zip|0", site(mp, 0), "MultiPattern::score does not zip column patterns with column haystacks")
 
 
 def rule_stable_sort(ctx):
